@@ -61,6 +61,8 @@ type Chain struct {
 	// checkSpend validates input idx of tx against the referenced output (chain specific).
 	checkSpend func(c *Chain, tx *ChainTx, idx int, prev *ChainTx, out ChainOut) error
 	salt       int
+	// HeightOffset is added to every height reported to nodes (heights near 2^32 without materialising blocks).
+	HeightOffset uint32
 	// RejectAll makes Broadcast fail (fault injection), counted down when > 0.
 	FailBroadcasts int
 }
@@ -311,6 +313,18 @@ func (c *Chain) SpentBy(o OutRef) *ChainTx {
 		return c.txs[id]
 	}
 	return nil
+}
+
+// TxsByLocked is TxsBy for online monitors (world lock held).
+func (c *Chain) TxsByLocked(by, kind string) []*ChainTx {
+	var r []*ChainTx
+	for _, id := range c.order {
+		t := c.txs[id]
+		if (by == "" || t.By == by) && (kind == "" || t.Kind == kind) {
+			r = append(r, t)
+		}
+	}
+	return r
 }
 
 // TxsBy lists transactions handed in by a given party with the given kind ("" = any).
